@@ -113,6 +113,9 @@ def run(chk: Check, ctx: Any) -> None:
                        "concatenated in visit order")
     chk.rule("C18-R2", "span = (ctx.start.line-1, ctx.start.column, ctx.stop.line-1, ctx.stop.column) of the position_marker context; "
                        "grammar: first token POSITION, last token CLOSE_SHARP")
+    chk.rule("C18-R4", "the listing visitor, interpreted on sample sources (marks in routines, macro bodies, macro-call arguments, switch/if/while headers, "
+                       "contexts, several per line, spread over lines, mark-like text inside strings), returns exactly the literals of the grammar's parse tree "
+                       "in source order with exact spans and values; the printed form of a mark compiles back to the same mark")
     chk.rule("C18-R3", "visitor and compiler use the same handler classes and parse_position_marker_arg; every SourceMapPositionMark(...) "
                        "site feeds each mark field from the like-named value; (pos, offset) tuple roles and the half-tile constant agree "
                        "between parser, handler and printer")
@@ -258,6 +261,10 @@ def run(chk: Check, ctx: Any) -> None:
                 n_sites += 1
                 check_mark_construction(chk, ctx, "C18-R2", "C18-R3", f, c, None, False)
     chk.floor("C18-R3", "SourceMapPositionMark construction sites", n_sites, 5)
+    listing_rule(chk, ctx, "C18-R4")
+    from .c04 import print_parse_rule
+    print_parse_rule(chk, ctx, "C18-R4", kinds=("position mark",))
+
 
 
 def _manual_traversal(chk: Check, g: Any, key: str, rule: str, f: Func) -> None:
@@ -441,3 +448,122 @@ def _tuple_roles(chk: Check, ctx: Any, marker_handler: Any, arg_handler: Any) ->
                        f"printer adds '.5' when self.{attr} {norm(t)[len(norm(t.left)):]}; the parser stores {half} for '.5' and {none} otherwise "
                        f"(expected a predicate on self.{want_attr} that is true for {half} and false for {none})",
                        f"'.5' printed exactly for the offset value {half} the parser stores")
+
+
+# --------------------------------------------------------------------------- R4: the listing visitor interpreted on sample sources
+
+MARK_SOURCES = {
+    "everywhere": '''import "x.exps";
+macro m($a) {
+    foo(Position<'in_macro', 1, 2>);
+    ~inner(Position<'macro_call_arg', 3.5, 4>, 5);
+    if (debug) { g(Position<'macro_nested', 0, 0>); }
+}
+def 0 {
+    bar(1, Position<'first', 10, 20.5>, 'str');  baz(Position<"dq", 0x10, 0b11>);
+    switch (ProcessSpecial(Position<'in_switch_header', 1, 1>, 2)) { case 1: qux(Position<'in_case', 7, 8>); default: r(Position<'in_default', 1.0, 2.50>); }
+    if (BranchX(Position<'in_if', 1, 2>)) { a(); } elseif not (BranchY(Position<'in_elseif', 3, 4>)) { b(); } else { c(Position<'in_else', 5, 6>); }
+    with (actor 3) { c(Position<'in_with', 5, 6>); }
+    d<actor 2>(Position<
+        'multi line',
+        11.5,
+        12
+    >);
+    ~callmacro(Position<'routine_macro_arg', 1, 2.5>);
+    message_SwitchTalk ($X) { case 1: "Position<'not a mark', 1, 2>" }
+    forever { while (BranchZ(Position<'in_while', 9, 9>)) { e(Position<'in_loop', 8, 8.5>); } }
+    for ($i = 0; $i < 3; $i += 1;) { f(Position<'in_for', -1, -2.5>); }
+}
+coro Co { h(Position<'it\\'s', 1, 2>, Position<'two in one', 3, 4>); }
+def 1 for actor 5 { k(Position<'', 0, 0>); }
+''',
+    "none": "def 0 { a(); 'x'; }\n".replace("'x'; ", ""),
+    "spellings": "def 0 { a(Position<'padded', 08.5, 010.0>, Position<'neg', -007.50, 00.5>); b(Position<'plain', 123.0, -456.500>, Position<'hex', 0x1F, 0b101>); }",
+    "one-line": "def 0 { a(Position<'p', 1, 2>); } def 1 { b(Position<'q', 3.5, 4.5>); }",
+}
+
+
+def listing_rule(chk: Check, ctx: Any, rule: str) -> None:
+    from ..engine.absint import AObj, PyExc, Unsupported
+    from ..engine.sta import SpecError, WholeCompiler, TreeCompiler
+    from ..spec import language_forms as LF
+    import bisect
+    repo = ctx.repo
+    g = ctx.grammar_exps
+    wc = WholeCompiler(repo, ctx.fold, g)
+    I = wc.I
+    vcls = repo.cls("explorerscript.ssb_converting.compiler.compiler_visitor.position_mark_visitor.PositionMarkVisitor")
+    anchor = Func(vcls.mod, vcls, vcls.methods["visitPosition_marker"]) if "visitPosition_marker" in vcls.methods else vcls.mod
+    n_marks = 0
+    for name, text in MARK_SOURCES.items():
+        key = f"listing:{name}"
+        tree = g.parse_text("start", text)
+        if tree is None:
+            chk.unknown(rule, key, anchor, "sample source does not parse with the grammar")
+            continue
+        starts = [0] + [i + 1 for i, ch in enumerate(text) if ch == "\n"]
+
+        def pos(p: int) -> tuple[int, int]:
+            i = bisect.bisect_right(starts, p) - 1
+            return i, p - starts[i]
+        want = []
+        for n in tree.walk():
+            if n.rule != "position_marker":
+                continue
+            lit = n.tok("STRING_LITERAL").text
+            nm = lit[1:-1].replace('\\"', '"').replace("\\'", "'").replace("\\n", "\n")
+            args = n.subs("position_marker_arg")
+            x, y = LF.position_arg(args[0].first_token().text), LF.position_arg(args[1].first_token().text)
+            want.append((pos(n.first_token().pos), pos(n.last_token().pos), nm, x[1], y[1], x[0], y[0]))
+        want.sort()
+        n_marks += len(want)
+        try:
+            I.steps = 0
+            ctree = wc.parse(text)
+            v = I.new(vcls)
+            res = I.visit_dispatch(v, ctree)
+        except PyExc as e:
+            chk.violation(rule, key, anchor, f"the listing fails on a source that parses: {e.cls_name}: {e.msg}")
+            continue
+        except (Unsupported, SpecError) as e:
+            chk.unknown(rule, key, anchor, f"abstract interpretation left the modelled subset: {e}")
+            continue
+        if not isinstance(res, list):
+            chk.violation(rule, key, anchor, f"the listing returns {res!r}, not a list of marks")
+            continue
+        got = []
+        for m in res:
+            a = m.attrs if isinstance(m, AObj) else {}
+            got.append(((a.get("line_number"), a.get("column_number")), (a.get("end_line_number"), a.get("end_column_number")), a.get("name"),
+                        a.get("x_offset"), a.get("y_offset"), a.get("x_relative"), a.get("y_relative")))
+        in_order = got == sorted(got)
+        missing = [w for w in want if w not in got]
+        extra = [x for x in got if x not in want]
+        ok = in_order and not missing and not extra and len(got) == len(want)
+        why = []
+        if missing:
+            why.append(f"{len(missing)} literal(s) missing or listed with other values, e.g. expected {missing[0]}")
+        if extra:
+            why.append(f"listed but not in the source (or with wrong span/values): {extra[0]}")
+        if not in_order:
+            why.append("entries are not in source order")
+        if len(got) != len(want):
+            why.append(f"{len(got)} entries for {len(want)} literals")
+        chk.decide(rule, key, ok, anchor, f"sample `{name}`: " + "; ".join(why) + " (entry = (start line/col of `Position`, line/col of `>`, name, x offset, y offset, x tile, y tile))",
+                   f"{len(want)} literals listed in source order with exact spans and values")
+        # the same literals as the compiler sees them (routines only; macros are not expanded here)
+        if name in ("one-line", "spellings"):
+            try:
+                res2 = wc.compile(text, "$PERF")
+                comp = []
+                for r in res2["routine_ops"]:
+                    for op in r:
+                        for p in op.attrs["params"]:
+                            if isinstance(p, AObj) and p.cls.name == "SsbOpParamPositionMarker":
+                                a = p.attrs
+                                comp.append((a.get("name"), a.get("x_offset"), a.get("y_offset"), a.get("x_relative"), a.get("y_relative")))
+                chk.decide(rule, key + ":compiler-agrees", comp == [w[2:] for w in got], anchor,
+                           f"the compiler produces marks {comp}; the listing says {[w[2:] for w in got]}", "listing values = compiled parameters")
+            except (PyExc, Unsupported, SpecError) as e:
+                chk.unknown(rule, key + ":compiler-agrees", anchor, f"compile of the sample not evaluated: {e}")
+    chk.floor(rule, "Position<...> literals in the listing samples", n_marks, 20)
